@@ -281,7 +281,7 @@ func checkC05(tier string) int {
 		if cr.Chance(0.5) {
 			cfg.O = 2
 		}
-		gp := genOwnProgram(gr, i, cfg.O >= 2)
+		gp := genOwnProgram(gr, i, false)
 		pols := []HeapPolicy{strictPolicy, drawPolicy(gr)}
 		jobs = append(jobs, &heapJob{Prog: gp, Cfg: cfg, Policies: pols})
 	}
